@@ -818,22 +818,24 @@ def solver_tol(law_type, fn):
     """(relative, absolute) tolerance of a wrapped law's value against another call of the same law.  stub: exact.
     ExtendedNeuber: the array Newton iteration stops when ALL elements have converged, so a value depends on its
     companions within the solver tolerance rtol = tol = 1e-4; a strain amplifies a stress error by at most 1/n' <= 10.
-    SeegerBeste: ten times wider.  This factor is kept from before the repair of the C06 finding seegerbeste-tolerance
-    (fixed by de286fc + b50f603): the vectorised secant iteration of that tree stopped early, deviations of some
-    1e-4 .. 1e-3 were observed between two calls then.  The solver of the checked tree is a per-element bisection; the
-    tolerance has not been re-measured since the repair."""
+    SeegerBeste (per-element bisection, pylife b50f603 + tools/fixes/C06-seegerbeste-bisection-accuracy.diff): a value does
+    not depend on its companions - two calls at the same load agree bit for bit (close_tab) - and is within 5 % of
+    tol + rtol |x| of the root: values at DIFFERENT loads (consequence clauses) carry twice that, 1e-5 (1 + |stress|), a strain
+    ten times the relative part.  Measured over the quick tier, seeds 1-3: deviation between two calls 0.0, largest
+    under-estimate 3e-16 relative (the former tolerance 3e-3 / 3e-2 dated from the vectorised secant iteration)."""
     if law_type == "stub":
         return 0.0, 0.0
-    f = 10.0 if law_type == "sb" else 1.0
+    if law_type == "sb":
+        return (1e-5, 1e-5) if "stress" in fn else (1e-4, 1e-8)
     if "stress" in fn:
-        return 3e-4 * f, 3e-4 * f
-    return 3e-3 * f, 1e-8
+        return 3e-4, 3e-4
+    return 3e-3, 1e-8
 
 
 def close_tab(a, b, law_type, fn, same_edges=True):
-    """Equality of table values computed by separate vectorised solver calls (see solver_tol).  Exact for the stub law on
-    bit-identical edges (within rounding when the two constructors produce edges that differ in the last place)."""
-    if law_type == "stub":
+    """Equality of table values computed by separate vectorised solver calls (see solver_tol).  Exact for the stub law and
+    the Seeger-Beste law on bit-identical edges (within rounding when the two constructors produce edges that differ in the last place)."""
+    if law_type in ("stub", "sb"):      # Seeger-Beste: every element is solved on its own, see solver_tol
         return same(a, b) if same_edges else abs(a - b) <= 1e-12 * abs(b)
     rtol, atol = solver_tol(law_type, fn)
     return abs(a - b) <= rtol * abs(b) + atol
